@@ -83,6 +83,10 @@ def one_batch(ctx0, focus, rng, b, bseed, cases, descr):
         theta_odd = rng.choice([15, 31, 63])
         max_length = rng.choice([250, 250, 3])
         max_step = rng.choice([10000000, 10000000, rng.randint(1, 30)])
+        if nbest > 1 and getattr(unary, 'self_loops', False):
+            # a unary cycle has infinitely many derivations: n-best search of a sentence with fewer than nbest parses runs to the
+            # step budget, so the budget is kept small here (1-best search stores one item per category and cell, and terminates)
+            max_step = min(max_step, rng.randint(20, 400))
         sents = [glue.rand_sentence(rng, len(cats), nmax=4 if ctx.quick else 5, full=rng.random() < 0.5) for _ in range(rng.randint(1, 4))]
         if focus == 'c16' and rng.random() < 0.4:
             # rows flattened by the category dictionary to a huge negative value (the real apply_category_filters, in place)
